@@ -48,6 +48,17 @@ T = {
  "c20d": ("C20", "unify_mesh shifts a VIEW of the user's first section mesh in place", ">= 3 sections, user-supplied section meshes, shift_uni_mesh=True, leading edges of sections 0/1 not coincident", "missed at first: C20 had no multi-section workflow among its admissible configurations, took its snapshot of the user's arrays after the model was built and only looked at top-level arrays; now every array reachable from the dictionaries is copied before the first library call, and the multi-section workflow (1-4 sections, user/generated meshes, aligned/offset, shift on/off) is part of the menu"),
  "c01d": ("C01", "EvalVelMtx.compute_partials: rear-filament derivative of interior rows uses row 0 (broadcast)", "nx >= 4 (an interior chordwise panel row)", "missed by the quick tier at first (nx <= 3; the thorough tier had nx = 4): one nx = 4 configuration per component moved into the quick tier"),
  "c03d": ("C03", "RotateToWindFrame.compute_partials returns early when alpha is unchanged (forgets beta)", "compressible model, two linearisations with the same alpha and different beta", "missed at first: no design point of any history differed from its predecessor in ONE input only; C03 now has, for every model and every input, the history linearise at P0 / move only that input / linearise, and a compressible full-span sideslip model"),
+ "c01e": ("C01", "RadiusComp: declared column pattern of d radius/d mesh points at chordwise row 1 instead of the trailing-edge row", "tube model with nx >= 3", "missed at first: the structural component cases of C01 all used nx = 2 meshes; the mesh-reading structural components (ComputeNodes, RadiusComp, WingboxGeometry) now have nx in {2,3,4}; C02 has an nx = 3 right-half tube state"),
+ "c02e": ("C02", "FEM.solve_linear zeroes the solution on the re-derived 'clamped' node (last node if symmetric) - wrong for right-half meshes", "symmetric RIGHT-half mesh and totals through FEM.solve_linear (struct alone, or LinearBlockGS/Krylov on the coupled group)", "missed at first: C02 only had left-half symmetric meshes; right-half + nx = 3 states added for struct-alone and aerostructural models with all three linear solvers"),
+ "c04e": ("C04", "MomentCoefficient: MAC doubling decided by the symmetry flag of the LAST surface", "two or more surfaces, first and last with different symmetry settings", "C17/C19 caught it after the mixed-symmetry lists added for c17e; C04 missed it: the wing+tail set is now also analysed with only one of the two surfaces modelled as a half"),
+ "c06e": ("C06", "TotalLiftDrag: aircraft CD is the unweighted mean of the surface CDs", "two surfaces of different area and CD", "caught at once by C06 and C17"),
+ "c07e": ("C07", "RotationalVelocity written in reversed spanwise order for meshes biased towards +y", "rotational=True, non-zero omega, right-half mesh or full-span mesh with a longer right semi-span", "caught at once by C07 and C05"),
+ "c10e": ("C10", "Transform: local reference axis switched to z for elements whose x direction cosine exceeds 0.8", "element swept beyond ~53 degrees and Iy != Iz", "caught at once (60-degree swept and winglet layouts added after c10c)"),
+ "c11e": ("C11", "mphys get_src_indices: offset of the third surface forgets the cumulative sum", "three or more surfaces through the MPhys export chain (MuxSurfaceForces / AeroMesh / DemuxSurfaceMesh)", "C19 caught it; C11 missed it (only MeshPointForces alone was checked): C11 now checks force and moment of the exported (coordinates, nodal forces) pair for every ordered selection of 1-3 surfaces"),
+ "c12e": ("C12", "ComputePointMassLoads: module-level cache keyed on the surface dictionary and layout, load_factor forgotten", "point masses, two flight points sharing the surface dictionary with different load factors (or load factor changed between runs)", "C03 caught it (single-input-change histories added after c03d); C12 missed it: C12 now has a point-mass configuration and compares every point of a multipoint model with the single-point analysis, both orders"),
+ "c16e": ("C16", "ComputeThrustLoads: pitching-moment column assigned instead of accumulated", "two or more engines with a vertical offset from the beam", "caught at once"),
+ "c17e": ("C17", "MomentCoefficient: x/z zeroing of a symmetric surface applied to the running total", "full-span surface listed before a symmetric one, non-zero roll/yaw moment on the former", "missed at first: all surface lists had one symmetry setting; C17 and C19 now have mixed lists (full first / half first)"),
+ "c19e": ("C19", "HorseshoeCirculations: offset of the next surface advances by one panel row only", "two surfaces, a non-last one with nx >= 3", "caught at once by C19 and C05"),
 }
 root = "/verif/seeded"
 for m, (prop, what, needs, note) in T.items():
